@@ -19,8 +19,9 @@ func listTransactions(w http.ResponseWriter, r *http.Request) {
 		paginate.OrderDesc,
 		func(resourceQuery *storagecommon.ResourceQuery[any]) error {
 			resourceQuery.Expand = append(resourceQuery.Expand, "volumes")
-			resourceQuery.Builder = buildGetTransactionsQuery(r)
-			return nil
+			var err error
+			resourceQuery.Builder, err = buildGetTransactionsQuery(r)
+			return err
 		},
 	)
 	if err != nil {
